@@ -20,7 +20,7 @@ SpellReport(n, o) ==
   /\ o.sem = Sem(a, "name")  \/ P("M-FAIL", [tid |-> n, what |-> "harness used another [[e]]"])
   /\ \A j \in DOMAIN o.sp :
        LET ob == o.sp[j]
-           sa == Sem(a, IF Styles[j].alt THEN "altatom" ELSE "atom") IN
+           sa == Sem(a, IF Styles[o.st[j]].alt THEN "altatom" ELSE "atom") IN
        /\ C20_SpellingOk(a, ob, o.sp[1]) \/ P("P-FAIL", [tid |-> n, clause |-> "spelling", j |-> j, idx |-> 0, outcome |-> ob.o,
                  what |-> IF ob.o # "Ok" THEN "raises" ELSE IF ob.dim # DimOfAst(a) THEN "dimension" ELSE IF ~ob.sc THEN "scale" ELSE "offset"])
        /\ (ob.o = "Ok" /\ ob.vec = sa.vec /\ ob.coef = sa.coef) \/ ~C20_SpellingOk(a, ob, o.sp[1])
@@ -28,16 +28,16 @@ SpellReport(n, o) ==
 RtReport(n, o) ==
   \A x \in DOMAIN o.rt :
     LET e == o.rt[x] IN
-    /\ C20_RoundTripEqual(e.u, e.r) \/ P("P-FAIL", [tid |-> n, clause |-> "reread-equal", j |-> 0, idx |-> x, outcome |-> e.r.o,
+    /\ C20_RoundTripEqual(e.u, e.r, Extreme(o.a)) \/ P("P-FAIL", [tid |-> n, clause |-> "reread-equal", j |-> 0, idx |-> x, outcome |-> e.r.o,
               what |-> IF e.r.o # "Ok" THEN "raises" ELSE IF e.r.dim # e.u.dim THEN "dimension" ELSE IF e.r.off # e.u.off THEN "offset" ELSE "scale"])
-    /\ C20_RoundTripIdentical(e.u, e.r) \/ ~C20_RoundTripEqual(e.u, e.r)
+    /\ C20_RoundTripIdentical(e.u, e.r) \/ ~C20_RoundTripEqual(e.u, e.r, Extreme(o.a))
          \/ P("P-FAIL", [tid |-> n, clause |-> "reread-identical", j |-> 0, idx |-> x, outcome |-> e.r.o,
               what |-> IF ~e.r.same \/ e.r.vec # e.u.vec \/ e.r.coef # e.u.coef THEN "expression" ELSE "hash"])
     \* transcription: the printed text parses back to the very same expression, coefficient included
     \* (the unit with expression 1 prints as "dimensionless" and re-reads as that symbol)
     \* (a micro-prefixed symbol spelled with u / U+00B5 re-reads as the U+03BC symbol: known finding, not transcribed)
     /\ e.micro \/ (e.r.o = "Ok" /\ e.r.coef = e.u.coef /\ e.r.vec = (IF e.u.vec = <<>> /\ e.u.coef = ROne THEN << <<DimlessId, 1, 1>> >> ELSE e.u.vec))
-         \/ ~C20_RoundTripEqual(e.u, e.r) \/ ~C20_RoundTripIdentical(e.u, e.r)
+         \/ ~C20_RoundTripEqual(e.u, e.r, Extreme(o.a)) \/ ~C20_RoundTripIdentical(e.u, e.r)
          \/ P("T-FAIL", [tid |-> n, op |-> "reread-" \o e.via, j |-> x])
     \* transcription: arithmetic on the tree gives the monomial [[e]] over the canonical atoms
     /\ (e.src # "arith-none" \/ (e.u.vec = Sem(o.a, "atom").vec /\ e.u.coef = Sem(o.a, "atom").coef))
@@ -61,7 +61,7 @@ PyReport(n, o) ==
 PersistReport(n, o) ==
   /\ C20_Persist(o.rk, o.rt, o.w, o.r) \/ P("P-FAIL", [tid |-> n, clause |-> "persist", j |-> 0, idx |-> 0, outcome |-> o.r.o,
          what |-> IF o.r.o # "Ok" THEN "raises" ELSE IF o.r.dim # o.w.dim THEN "dimension" ELSE IF o.r.off # o.w.off THEN "offset" ELSE "scale"])
-  /\ (LET pr == PersistPredict(o.rk, o.rt) IN IF pr = "raise" THEN o.r.o = "Raise" ELSE o.r.o = "Ok" /\ o.r.sc = pr)
+  /\ (LET pr == PersistPredict(o.rk, o.rt, o.f) IN IF pr = "raise" THEN o.r.o = "Raise" ELSE o.r.o = "Ok" /\ o.r.sc = pr)
        \/ ~C20_Persist(o.rk, o.rt, o.w, o.r) \/ P("T-FAIL", [tid |-> n, op |-> "persist-" \o o.rt, j |-> 0])
 Report(n) == LET o == Obs[n] IN
   CASE o.k = "ast" -> AstReport(n, o) [] o.k = "tok" -> TokReport(n, o) [] o.k = "py" -> PyReport(n, o)
